@@ -1,7 +1,7 @@
 (* C06 — property theorems (statements only; proofs in Proofs*.v) *)
 From Coq Require Import NArith List Bool Arith.
 Import ListNotations.
-From LTV.C06 Require Import ParamsProbe Model Proofs ProofsInv ProofsRun ProofsOcc ProofsFull ProofsRetry ProofsKs ProofsKs2 ProofsKs3 ModelSend ProofsSend ProofsDual.
+From LTV.C06 Require Import ParamsProbe Model Proofs ProofsInv ProofsRun ProofsOcc ProofsFull ProofsRetry ProofsKs ProofsKs2 ProofsKs3 ModelSend ProofsSend ProofsDual ProofsRetry2 ProofsSync.
 
 Theorem params_ok_now : params_ok = true.
 Proof. exact Proofs.params_ok_now. Qed.
@@ -210,7 +210,53 @@ Theorem retry_policy_incoming : forall p, retry_policy true p = RNone.
 Proof. exact Proofs.retry_policy_incoming. Qed.
 Print Assumptions retry_policy_incoming.
 
-(* finite cross-check of the same rule on the 15 policies x 2 failure points, including the second attempt *)
+(* retry_rule for every reachable STATE, not only the failure points of event_read: receive_failed is
+   also called by receive_timeout and event_error on a handshake that is still waiting (Cont), and
+   the decision it takes there is the same function of (policy, recognised?). *)
+Theorem retry_rule_any_state : forall bfb p segs s,
+  retry_mode p = Allow ->
+  state_of (run bfb (Cont (init_out p) []) segs) = Some s ->
+  retry_policy false (pol s) = retry_formula p (recog s).
+Proof. exact ProofsRetry2.retry_rule_any_state. Qed.
+Print Assumptions retry_rule_any_state.
+
+(* a connect that fails or times out before event_write (CONNECTING) armed the flag is never retried *)
+Theorem retry_connecting : forall p, retry_mode p = Allow -> retry_policy false p = RNone.
+Proof. exact ProofsRetry2.retry_connecting. Qed.
+Print Assumptions retry_connecting.
+
+(* what the ghost flag means in terms of the handshake's own state: while the peer's key / handshake
+   part 1 has not been recognised, an outgoing handshake (any policy, input, segmentation, close
+   timing) is still in its first state, has consumed nothing (position 0, every byte read is still
+   in the buffer), has written nothing beyond its first flight and runs no cipher. *)
+Theorem unrecognised_means_untouched : forall bfb p segs s,
+  state_of (run bfb (Cont (init_out p) []) segs) = Some s ->
+  recog s = false ->
+  st s = first_state p /\ pos s = 0 /\ nread s = length (buf s) /\ wlog s = first_flight p /\ dvalid s = false.
+Proof. exact ProofsRetry2.unrecognised_means_untouched. Qed.
+Print Assumptions unrecognised_means_untouched.
+
+(* the whole two-attempt chain for ALL failure points / states of BOTH attempts (the full form of
+   retry_rule_partial's retry_cell: retried only as a first attempt that consumed nothing of the peer;
+   flipped handshake type, same stream mode, valid policy; the retry is never retried, wherever and
+   however it ends). *)
+Theorem retry_chain : forall bfb p segs s p2,
+  retry_mode p = Allow ->
+  state_of (run bfb (Cont (init_out p) []) segs) = Some s ->
+  retry_policy false (pol s) = RRetry p2 ->
+  retrying p = false /\ recog s = false /\
+  st s = first_state p /\ pos s = 0 /\ nread s = length (buf s) /\ wlog s = first_flight p /\
+  p2 = flipped p /\ policy_valid p2 = true /\ prefer_enc_hs p2 = negb (prefer_enc_hs p) /\
+  first_flight p2 = (if prefer_enc_hs p then [WHs false] else [WKeyPad]) /\
+  pol (init_out p2) = p2 /\
+  (forall bfb' segs' s', state_of (run bfb' (Cont (init_out p2) []) segs') = Some s' ->
+                         retry_policy false (pol s') = RNone).
+Proof. exact ProofsRetry2.retry_chain. Qed.
+Print Assumptions retry_chain.
+
+(* finite cross-check of the same rule on the 15 policies x 2 failure points, including the second
+   attempt, on concrete closing peers (kept: it also shows those concrete attempts do fail; the
+   general statement is retry_rule + retry_rule_any_state + retry_chain above) *)
 Theorem retry_rule_partial : forall p fp, In p all_policies -> In fp [0; 1] -> retry_cell p fp = true.
 Proof. exact Proofs.retry_rule_partial. Qed.
 Print Assumptions retry_rule_partial.
@@ -227,3 +273,49 @@ Theorem handshakes_independent : forall bfb l oa ob,
   run2 bfb oa ob l = (run bfb oa (proj true l), run bfb ob (proj false l)).
 Proof. exact ProofsDual.handshakes_independent. Qed.
 Print Assumptions handshakes_independent.
+
+(* PadA / PadB scan of read_encryption_sync for EVERY pad length (not only {0,1,255,511,512}).
+   sound: when the scan moves on, the sync pattern stands right behind the skipped pad in the bytes
+   received so far and nowhere earlier, position/state/window are as stated, and the pad is at most
+   512 bytes - except an outgoing PadB that arrived in the same read as the key, where the code's
+   bound is 524 (pad_bound).  complete: an opaque pad of any length n the window can hold followed
+   by the pattern is found at n.  reject: a full window (512 + pattern length) without the pattern
+   fails with sync-failed. *)
+Theorem sync_scan_sound : forall s k eof s' k',
+  InvB s -> st s = SYNC -> act_sync s k eof = ANext s' k' ->
+  exists o c, o <= pad_bound (inc s) /\ (find_sync (inc s) (buf s) 0 = None -> o <= PADMAX) /\
+    o + patlen (inc s) <= length (buf s ++ c) /\
+    sync_at (inc s) (skipn o (buf s ++ c)) = true /\
+    (forall j, j < o -> sync_at (inc s) (skipn j (buf s ++ c)) = false) /\
+    st s' = sync_target (inc s) /\ pos s' = 96 + o + sync_skip (inc s) /\
+    buf s' = skipn (o + sync_skip (inc s)) (buf s ++ c) /\ k' = skipn (length c) k.
+Proof. exact ProofsSync.sync_scan_sound. Qed.
+Print Assumptions sync_scan_sound.
+
+Theorem sync_scan_complete : forall s k eof n rest,
+  st s = SYNC -> buf s = opq n ++ sync_pattern (inc s) ++ rest ->
+  act_sync s k eof = sync_found s k n.
+Proof. exact ProofsSync.sync_scan_complete. Qed.
+Print Assumptions sync_scan_complete.
+
+Theorem sync_scan_complete_bound : forall s n rest,
+  InvB s -> st s = SYNC -> buf s = opq n ++ sync_pattern (inc s) ++ rest -> n <= pad_bound (inc s).
+Proof. exact ProofsSync.sync_scan_complete_bound. Qed.
+Print Assumptions sync_scan_complete_bound.
+
+Theorem sync_scan_reject : forall s k eof,
+  st s = SYNC -> find_sync (inc s) (buf s) 0 = None -> PADMAX + patlen (inc s) <= length (buf s) ->
+  act_sync s k eof = AThr s 7 9.
+Proof. exact ProofsSync.sync_scan_reject. Qed.
+Print Assumptions sync_scan_reject.
+
+(* "PadB is at most 512 bytes" is false of the faithful model (and of the code: witness replayed,
+   corpus/C06/padb_over_512.case): an outgoing handshake accepts PadB = 513..524 when pad and
+   ENCRYPT(VC) are coalesced with the peer's key, and rejects the same bytes cut after the pad. *)
+Theorem padb_bound_512_refuted :
+  (exists s k, run bfb0 (Cont (init_out padb_policy) []) [(padb_stream 524, false)] = Done s k /\ aligned_final s k = true) /\
+  (exists s, run bfb0 (Cont (init_out padb_policy) [])
+               [(firstn 620 (padb_stream 524), false); (skipn 620 (padb_stream 524), false)] = Failed s 7 9) /\
+  (exists s, run bfb0 (Cont (init_out padb_policy) []) [(padb_stream 525, false)] = Failed s 7 9).
+Proof. exact ProofsSync.padb_over_512_accepted_when_coalesced. Qed.
+Print Assumptions padb_bound_512_refuted.
